@@ -396,6 +396,7 @@ type gen struct {
 	legacy   bool
 	pedantic bool
 	heavy    bool
+	clean    bool // no injected defect in this case
 	typeOf   map[string]int
 }
 
@@ -435,7 +436,11 @@ func (g *gen) newDesc(pool []string) *descSpec {
 			seen[v] = true
 		}
 	}
-	switch g.r.Intn(24) {
+	k := g.r.Intn(24)
+	if g.clean {
+		k, help = 23, "h"
+	}
+	switch k {
 	case 0:
 		ds.d, ds.bad = prometheus.NewInvalidDesc(errInvalidDesc), true
 		return ds
@@ -482,8 +487,11 @@ func (g *gen) content(ds *descSpec, uid int, tags map[string]bool) (*dto.Metric,
 		if _, dup := vals[n]; !dup {
 			names = append(names, n)
 		}
-		vals[n] = g.pick([]string{"1", "1", "2", "2", "3"})
-		if r.Chance(1, 10) {
+		vals[n] = fmt.Sprint(uid)
+		if !g.clean && r.Chance(1, 4) {
+			vals[n] = g.pick([]string{"1", "1", "2", "2", "3"})
+		}
+		if r.Chance(1, 10) && !g.clean {
 			vals[n] = g.pick(validUTF8)
 		}
 	}
@@ -504,6 +512,13 @@ func (g *gen) content(ds *descSpec, uid int, tags map[string]bool) (*dto.Metric,
 	}
 	if g.heavy {
 		nmut = r.Intn(5)
+	}
+	if g.clean {
+		nmut = 0
+		if len(ds.vars) == 0 || r.Chance(1, 4) {
+			t := int64(uid)
+			m.TimestampMs = &t
+		}
 	}
 	for k := 0; k < nmut; k++ {
 		n := len(m.Label)
@@ -605,12 +620,6 @@ func (g *gen) content(ds *descSpec, uid int, tags map[string]bool) (*dto.Metric,
 			tags["mut:reserved-label"] = true
 		}
 	}
-	// KNOWN finding descconsistency-makeslice: on a pedantic registry a checked metric with fewer labels than its
-	// Desc has constant labels makes checkDescConsistency panic (makeslice: cap out of range).  Ordinary streams avoid it.
-	for k := 0; g.pedantic && len(m.Label) < len(ds.cs); k++ {
-		m.Label = append(m.Label, lp(fmt.Sprintf("pad%d", k), "1"))
-		tags["padded(known-finding avoided)"] = true
-	}
 	return m, writeErr
 }
 
@@ -706,7 +715,7 @@ func (g *gen) buildAdvRegistry(reg *prometheus.Registry, rc *recorder, tags map[
 			x := rc.newRec(checked)
 			m, werr := g.content(ds, x.uid, tags)
 			col.metrics = append(col.metrics, &advMetric{r: rc, x: x, d: ds.d, writeErr: werr, content: m})
-			if r.Chance(1, 12) { // an exact or near duplicate right away
+			if r.Chance(1, 12) && !g.clean { // an exact or near duplicate right away
 				x2 := rc.newRec(checked)
 				m2 := proto.Clone(m).(*dto.Metric)
 				m2.Gauge, m2.Counter, m2.Summary, m2.Untyped, m2.Histogram = nil, nil, nil, nil, nil
@@ -771,7 +780,7 @@ func advStream(c *cli.Ctx, r *emit.Rng, stream string, n int, heavy bool) error 
 	w := emit.NewWriter(c.Out, "C09", stream)
 	var fl failures
 	for i := 0; i < n; i++ {
-		g := &gen{r: r, legacy: r.Chance(1, 4), typeOf: map[string]int{}, heavy: heavy}
+		g := &gen{r: r, legacy: r.Chance(1, 4), typeOf: map[string]int{}, heavy: heavy, clean: !heavy && r.Chance(1, 3)}
 		setScheme(g.legacy)
 		pedantic := r.Bool()
 		g.pedantic = pedantic
@@ -797,6 +806,9 @@ func advStream(c *cli.Ctx, r *emit.Rng, stream string, n int, heavy bool) error 
 			fl.add(i, fmt.Sprintf("%d metrics emitted but %d processed", total, na))
 		}
 		kindTags(out.kinds, tags)
+		if g.clean {
+			tags["case:no-defect-injected"] = true
+		}
 		if pedantic {
 			tags["registry:pedantic"] = true
 		} else {
